@@ -330,6 +330,51 @@ fn refresh_rate(rep: &mut Report) {
     }
 }
 
+/// Parsing is a pure function: many threads parsing *different* literals at the same time get each their own
+/// value (a process-wide memo of "the last literal" must not leak between them).
+fn concurrent_literals(rep: &mut Report) {
+    if rep.only.is_some() {
+        return;
+    }
+    const SIZE: [(&str, u128); 8] = [("1 kb", 1024), ("6 b", 6), ("7 kb", 7168), ("4 tb", 4 << 40), ("3mb", 3 << 20), ("1023", 1023), ("2 GiB", 2 << 30), ("0", 0)];
+    const TIME: [(&str, &str); 6] = [("1 second", "Second(1)"), ("2 weeks", "Week(2)"), ("3 hours", "Hour(3)"), ("45", "Second(45)"), ("7days", "Day(7)"), ("12 months", "Month(12)")];
+    let per_thread: usize = if rep.tier == "thorough" { 400_000 } else { 100_000 };
+    let wrong: std::sync::Mutex<Vec<String>> = Default::default();
+    std::thread::scope(|s| {
+        for t in 0..8usize {
+            let wrong = &wrong;
+            s.spawn(move || {
+                let mut x = 0x9e3779b97f4a7c15u64.wrapping_mul(t as u64 + 1);
+                for _ in 0..per_thread {
+                    let r = crate::rng::splitmix(&mut x);
+                    if r % 2 == 0 {
+                        let (lit, want) = SIZE[(r >> 8) as usize % SIZE.len()];
+                        let got = serde_json::from_str::<SizeTriggerConfig>(&format!("{{\"limit\": \"{}\"}}", lit)).ok()
+                            .and_then(|c| debug_number(&format!("{:?}", c), "limit"));
+                        if got != Some(want) {
+                            wrong.lock().unwrap().push(format!("size literal {:?} parsed as {:?}, expected {}", lit, got, want));
+                            return;
+                        }
+                    } else {
+                        let (lit, want) = TIME[(r >> 8) as usize % TIME.len()];
+                        let got = serde_json::from_str::<TimeTriggerInterval>(&format!("\"{}\"", lit)).map(|v| format!("{:?}", v)).ok();
+                        if got.as_deref() != Some(want) {
+                            wrong.lock().unwrap().push(format!("interval literal {:?} parsed as {:?}, expected {}", lit, got, want));
+                            return;
+                        }
+                    }
+                }
+            });
+        }
+    });
+    rep.case_enumerated(true);
+    rep.count("literals_parsed_by_eight_threads_at_once", (8 * per_thread) as i64);
+    let wrong = wrong.into_inner().unwrap();
+    if !wrong.is_empty() {
+        rep.violation("C20:value-of-another-literal:concurrent-parsing", json!({"what": wrong, "threads": 8}));
+    }
+}
+
 pub fn run(rep: &mut Report) {
     rep.rule = "literals '<number><0-3 spaces or a tab><unit>' with numbers {0, small, 2^k-2..2^k+2 around every overflow threshold \
         (2^64, 2^54, 2^44, 2^34, 2^24 for sizes; 2^63 for intervals), 18-23 digit strings, leading zeros}, every documented unit in \
@@ -345,6 +390,7 @@ pub fn run(rep: &mut Report) {
     run_cases(rep, "interval", n, interval_case);
     run_cases(rep, "behaviour", if rep.tier == "thorough" { 400 } else { 40 }, behavioural);
     refresh_rate(rep);
+    concurrent_literals(rep);
     rep.require(rep.counter("literals_expected_to_be_rejected") > 1000, "too few bad literals");
     rep.require(rep.counter("behavioural_limit_checks") >= 20, "too few behavioural limit checks");
 }
